@@ -11,9 +11,17 @@ MANIFEST = {
                   "8- or 16-byte header, every short-read schedule of the ReadSeeker and both empty-read behaviours: "
                   "C08_read_equal (ReadData and CopyData of the in-memory box and of the lazily decoded box return exactly the file "
                   "slice for every range that starts at a payload byte and ends at or before the payload end, incl. the last byte; "
-                  "repaired text), C08_last_byte_refuted (the pinned `end >= dataLen` text fails at the last byte) and "
-                  "C08_read_equal_pinned_interior. The model is tied to /repo on every run by running it (extracted) against the real "
-                  "code on ALL (start,size) ranges (valid and invalid) of small mdats and random ranges of large ones.",
+                  "repaired text), C08_last_byte_refuted (the pinned `end >= dataLen` text fails at the last byte), "
+                  "C08_read_equal_pinned_interior; C08_decode_equal (DecodeBox / DecodeBoxLazyMdat of an mdat give the same StartPos, "
+                  "LargeSize, size and end position); C08_header_plus_payload (Encode of the lazy box = the original header bytes, header ++ "
+                  "payload = box, equal Size()); C08_copy_samples (CopySampleData, every work buffer length and content, every run of "
+                  "chunks covering samples a..b inside the payload: both modes write the concatenation of the samples' bytes; loop "
+                  "invariant written ++ workSpace[0..workPos) = prefix), C08_zero_size_at_eof_refuted (pinned `for {` refill loop). "
+                  "C08_tree_equal is explored only (search: Info dump, sizes and positions of both trees on synthesized progressive and "
+                  "fragmented files) beyond the top-level walk. The model is tied to /repo on every run by running it (extracted) "
+                  "against the real code on ALL (start,size) ranges (valid and invalid) of small mdats, random ranges of large ones, all "
+                  "sample intervals x work buffers {0,1,2,3,7,8,4096} of synthesized progressive files; the theorems' hypotheses are "
+                  "evaluated by the model driver on the chunk lists the real GetContainingChunks returned.",
     "level_note": "Trusted: Coq kernel, extraction (ExtrOcamlBasic), OCaml/Go glue, and the correspondence being only as good as its "
                   "generated inputs. The io.Writer never fails; DataParts (output only) is not modelled; the empty range AT the payload "
                   "end is not counted as a valid range (in memory: error, lazy: empty result). Sub-boxes of moov etc. are decoded by the "
@@ -63,11 +71,16 @@ def run(ctx):
         key = (p[0], ctxf if p[0] != "F" else "", "\t".join(p[2:]))
         if any(x.startswith("o:") for x in p[2:]):
             distinct.add(key)
-    kinds = {k: sum(1 for l in lines if l.startswith(k + "\t")) for k in ("F", "R", "H", "S", "T")}
+    kinds = {k: sum(1 for l in lines if l.startswith(k + "\t")) for k in ("F", "R", "H", "S", "T", "W")}
+    hyp = {"R": 0, "S": 0}
+    for l, r in zip(lines, res):
+        if r.endswith(" H"):
+            hyp[l[0]] = hyp.get(l[0], 0) + 1
     ctx.cov["evaluations"] += len(lines)
     ctx.cov["distinct_nontrivial"] += len(distinct)
     ctx.notes["correspondence"] = {"cases": len(lines), "mismatches": len(mism), "distinct_cases_with_ok_outcome": len(distinct),
                                    "kinds": kinds, "exhaustive_payload_len": exh,
+                                   "cases_satisfying_theorem_hypotheses": {"C08_read_equal (R)": hyp["R"], "C08_copy_samples (S)": hyp["S"]},
                                    "panic_outcomes": sum(l.count("\tp") for l in lines),
                                    "error_outcomes": sum(l.count("\te") for l in lines)}
     rl = [l for l in lines if l.startswith("R\t")]
